@@ -77,7 +77,8 @@ CHECKS = {
         "length 3-4, and the lemma that promoting one FP of any ranking to a TP never lowers the declarative AP / APH. Every enumerated case is "
         "realised as real object results and get_positive_objects, get_negative_objects and Ap are evaluated at each threshold and compared with "
         "the specification per rung and for monotonicity; random result sets with random 5-rung ladders in all four matching modes are validated "
-        "as traces (TP subset chain, FN counts, AP, APH).",
+        "as traces (TP subset chain, FN counts, AP, APH), and so are ladders of per-label threshold LISTS over three labels, judged through "
+        "get_positive_objects / get_negative_objects / Map and through PassFailResult with its own label order.",
         note="ordinary ground truth only; exact for centre-distance ladders on constructed results, all modes in traces with a 1e-6 margin from rungs",
         design="DESIGN.md 5 (C08)",
         technique="TLA+ spec + TLC exhaustive; spec->code replay; code->spec trace validation",
@@ -100,7 +101,8 @@ CHECKS = {
         "object of a position x label x attribute x confidence x points x uuid grid as estimate and as ground truth against x/y, ring and "
         "label-only parameter sets and short lists, checking kept-exactly, order, idempotence, widening monotonicity, FP-always-passes and "
         "result-needs-both; every state is replayed through the real functions in base_link (with/without transforms), map (with ego pose) and 2-D "
-        "renderings, and the manager's _filter_objects is compared on the C03 scenes.",
+        "renderings, and the manager's _filter_objects is compared on the C03 scenes; the uuid criterion is also replayed where the sensing manager "
+        "applies it (frame configuration vs evaluation configuration).",
         note="integer coordinates against odd half-unit bounds; mean bounds with sum = 2 mod 4 (no boundary hits)",
         design="DESIGN.md 5 (C10)",
         technique="TLA+ spec + TLC exhaustive; spec->code replay of every evaluated state",
@@ -111,7 +113,8 @@ CHECKS = {
         "pair by equal label (and uuid when uuid-first) then by uuid, as the SET of admissible outcomes of the label stage; scores as exact "
         "rationals. TLC checks same-camera, each-object-once, label-stage maximality, scores within [0,1] and the perfect case over sampled inputs "
         "(<= 3 objects per side, 3 uuids, 3 labels, 3 cameras incl. cam_traffic_light, both uuid-first settings); each state is replayed through "
-        "get_object_results(CLASSIFICATION2D), ClassificationAccuracy and ClassificationMetricsScore._summarize. The same inputs are run through PerceptionEvaluationManager in the classification2d task (frame pairs, scores, two-frame scene).",
+        "get_object_results(CLASSIFICATION2D), ClassificationAccuracy and ClassificationMetricsScore._summarize (the two ordinary labels of the "
+        "specification stand for every neighbouring pair of declared traffic-light labels). The same inputs are run through PerceptionEvaluationManager in the classification2d task (frame pairs, scores, two-frame scene).",
         note="uuids unique per side and camera; undefined scores may be any non-finite value (the library mixes inf and nan)",
         design="DESIGN.md 5 (C11)",
         technique="TLA+ spec + TLC; spec->code replay of every state",
@@ -123,7 +126,7 @@ CHECKS = {
         "inside / boundary / outside partition and scale monotonicity for every point of a 13x13x5 block against every box of the slice and "
         "evaluates sampled frames; every state is replayed through crop_pointcloud, DynamicObject.crop_pointcloud, get_inside_pointcloud_num, "
         "SensingFrameResult.evaluate_frame and SensingEvaluationManager.add_frame_result, comparing index sets modulo boundary points; random "
-        "float boxes with clouds up to 5000 points are validated as traces.",
+        "float boxes with clouds up to 5000 points (and dense 60k-point clouds through the per-object sensing result) are validated as traces.",
         note="points exactly on a vertical face / polygon edge are boundary (nothing demanded); frame objects sit at integer distances so the "
         "distance-dependent scale is rational",
         design="DESIGN.md 5 (C12)",
@@ -158,7 +161,7 @@ CHECKS = {
         engine="tla-config",
         text="Thresholds.tla defines Normalize(tree, n, nest) on tagged value trees from the documentation (broadcast of scalars/singletons, flat list "
         "reading in nested mode, rejection of malformed shapes and non-numeric leaves) and Config.tla the documented acceptance rule of evaluation "
-        "and frame configurations. TLC enumerates every tree up to a bound x n x mode checking shape, idempotence, no-pad-no-truncate and "
+        "and frame configurations (range kinds, mandatory parameters, label_prefix present and exact, unknown keys). TLC enumerates every tree up to a bound x n x mode checking shape, idempotence, no-pad-no-truncate and "
         "rejection, and every abstract configuration; each state is realised as a Python value / dictionary and fed to set_thresholds, "
         "PerceptionEvaluationConfig, SensingEvaluationConfig, CriticalObjectFilterConfig and PerceptionPassFailConfig; values, rejections and the "
         "lengths of all per-label lists are compared. Exhaustive within the bound.",
@@ -219,7 +222,7 @@ CHECKS = {
         text="Enums.tla defines Parse(enum, member table, spelling) over byte sequences with the documented case folding (FrameID, label policy) and "
         "fallback (Visibility aliases / UNAVAILABLE). MC_Enums model-checks the round-trip, case and rejection laws of Parse over all small tables; "
         "every member of every real enum, its case variants, near misses and random strings are parsed by the real constructors and each call is "
-        "validated by TLC (member identity, not name string); every enum-or-string call site is observed under both spellings and TLC requires "
+        "validated by TLC (member identity, not name string), the label policy also where a user writes it (PerceptionEvaluationConfig); every enum-or-string call site is observed under both spellings and TLC requires "
         "equal observations. Exhaustive over members.",
         note="member tables are introspected from the code at run time; the parser semantics (folding, fallback, reject) are the specification's",
         design="DESIGN.md 5 (C20)",
